@@ -34,6 +34,7 @@ type updPlan struct {
 	// bookkeeping of the generator
 	mustVote []int       // predecessor indices of replaced regular voters
 	acks     []*gen.Cert // predecessor roots that were replaced
+	noteIdx  int         // predecessor index the defect is about (class only)
 }
 
 func (u *updPlan) voteClass() gen.Kind {
@@ -75,6 +76,11 @@ func (u *updPlan) change(e *env, rng *rand.Rand, name string) bool {
 			return false
 		}
 		i := cand[rng.IntN(len(cand))]
+		if rng.IntN(2) == 0 { // favour certificates far back in the list
+			for _, c := range cand {
+				i = max(i, c)
+			}
+		}
 		old := s.p.Certs[i]
 		s.slots[i].ver++
 		s.sync()
@@ -676,6 +682,12 @@ func updateDefects() []defect {
 		{name: "replaced-regular-voter-did-not-vote", kinds: reg, need: need{replacedRegular: true}, apply: func(e *env, rng *rand.Rand, u *updPlan) bool {
 			// at least quorum other regular voters vote and sign
 			skip := u.mustVote[rng.IntN(len(u.mustVote))]
+			if rng.IntN(2) == 0 { // prefer the certificate with the highest index in the predecessor
+				for _, m := range u.mustVote {
+					skip = max(skip, m)
+				}
+			}
+			u.noteIdx = skip
 			var others []int
 			for _, i := range u.pred.indices(gen.Regular) {
 				if i != skip {
@@ -977,6 +989,14 @@ func (u *updPlan) run(r *mon.Run) {
 	if label == "" {
 		label = "clean"
 	}
+	if u.pred != nil && len(u.pred.p.Certs) > 64 {
+		r.Class("large-predecessor(>64 certificates)/" + u.kind + "/" + label)
+		r.Event("large_predecessor_case")
+		if u.noteIdx >= 64 {
+			r.Class("defect-about-certificate-index>=64/" + label)
+			r.Event("defect_about_certificate_index_ge_64")
+		}
+	}
 	if u.unjudged != "" {
 		label = "unjudged:" + u.unjudged
 		if u.defect != "" {
@@ -1275,7 +1295,7 @@ func checkC32(r *mon.Run) {
 		tally.Unlock()
 		r.Extra("outcomes_by_plan", out)
 	}
-	r.Require(int64(nScen)*100, 80, "verify_decode", "verify_struct", "accepted", "rejected", "lift_warmup_accepted")
+	r.Require(int64(nScen)*100, 80, "verify_decode", "verify_struct", "accepted", "rejected", "lift_warmup_accepted", "large_predecessor_case", "defect_about_certificate_index_ge_64")
 	r.RequireClasses("regular/duplicate-votes/rejected", "sensitive/duplicate-votes/rejected",
 		"regular/missing-new-voter-signature/rejected", "regular/missing-root-acknowledgement/rejected",
 		"regular/replaced-regular-voter-did-not-vote/rejected", "regular/regular-voters-with-quorum-up/rejected",
